@@ -63,11 +63,12 @@ def _div(a, b):
 
 
 class Arr:
-    def __init__(self, items):
+    def __init__(self, items, dtype=float):
         self.v = list(items)
+        self.dtype = dtype
 
     def __deepcopy__(self, memo):
-        return Arr(self.v)
+        return Arr(self.v, self.dtype)
 
     def __len__(self):
         return len(self.v)
@@ -83,6 +84,8 @@ class Arr:
         return self.v[i]
 
     def __setitem__(self, i, x):
+        if self.dtype is int and not isinstance(x, (int, SymInt)):
+            x = core.to_int_trunc(x) if is_sym(x) else int(x)  # numpy truncates on assignment into an integer array
         self.v[i] = x
 
     @property
@@ -107,8 +110,13 @@ class Arr:
             return Arr([f(a, b) for a, b in zip(self.v, o)])
         return Arr([f(a, o) for a in self.v])
 
+    def _keep_int(self, o, r):
+        if self.dtype is int and (isinstance(o, (int, SymInt)) and not isinstance(o, bool) or (isinstance(o, Arr) and o.dtype is int)):
+            r.dtype = int
+        return r
+
     def __add__(self, o):
-        return self._ew(o, lambda a, b: a + b)
+        return self._keep_int(o, self._ew(o, lambda a, b: a + b))
 
     __radd__ = __add__
 
@@ -142,6 +150,8 @@ class Arr:
         return self
 
     def __itruediv__(self, o):
+        if self.dtype is int:
+            raise core.emulated(TypeError("Cannot cast ufunc 'divide' output from dtype('float64') to dtype('int64') with casting rule 'same_kind'"))
         self.v = (self / o).v
         return self
 
@@ -179,11 +189,17 @@ def _to_float_items(a, dtype=None):
             out.append(x)
         elif dtype is int:
             out.append(int(x))
-        elif isinstance(x, int):
+        elif dtype is float and isinstance(x, int):
             out.append(float(x))
         else:
             out.append(x)
     return out
+
+
+def _infer_dtype(a):
+    if len(a) > 0 and all((isinstance(x, int) and not isinstance(x, bool)) or isinstance(x, SymInt) for x in a):
+        return int
+    return float
 
 
 def asarray(a, dtype=None):
@@ -194,7 +210,8 @@ def asarray(a, dtype=None):
     if isinstance(a, range):
         a = list(a)
     if isinstance(a, (list, tuple)):
-        return Arr(_to_float_items(a, dtype))
+        dt = dtype if dtype in (int, float) else _infer_dtype(a)
+        return Arr(_to_float_items(a, dt), dt)
     raise core.Unsupported(f"asarray of {type(a)}")
 
 
